@@ -50,7 +50,14 @@ pub fn verif_root() -> String {
 fn main() {
     let args: Vec<String> = std::env::args().skip(1).collect();
     install_panic_hook();
-    let code = match args.first().map(|s| s.as_str()) {
+    // everything runs on a thread with a large stack (deep vtrees / long implication chains recurse deeply)
+    let code = std::thread::Builder::new().stack_size(512 << 20).spawn(move || dispatch(&args)).unwrap().join().unwrap_or(2);
+    std::process::exit(code);
+}
+
+fn dispatch(args: &[String]) -> i32 {
+    let args: Vec<String> = args.to_vec();
+    match args.first().map(|s| s.as_str()) {
         Some("check") => cmd_check(&args[1..]),
         Some("child-check") => cmd_child_check(&args[1..]),
         Some("replay") => cmd_replay(&args[1..]),
@@ -65,8 +72,7 @@ fn main() {
             eprintln!("usage: rsdd-sim check|replay|run-one|hashes|selftest ...");
             2
         }
-    };
-    std::process::exit(code);
+    }
 }
 
 // ------------------------------------------------------------------ check (supervisor)
